@@ -56,6 +56,9 @@ fn pool() -> Vec<PM> {
         p(b"A:D?\n", Kind::Sound),
         p(b"@\n", Kind::ParseFault),
         p(b"Z\n", Kind::ParseFault),
+        // '#', a non-zero digit d and something other than d digits: not a block, the newline ends the message
+        p(b"Z #2\n", Kind::ParseFault),
+        p(b"B?;A:K #9\n", Kind::ParseFault),
         p(b"E?\n", Kind::ExecFault),
         p(b"B\n", Kind::ExecFault),
         p(b"B 300\n", Kind::ExecFault),
@@ -332,6 +335,7 @@ struct Key {
     proc_offset: usize,
     read_offset: usize,
     discarding: bool,
+    scan: (u8, usize, usize),
     obs: u64,
 }
 
@@ -354,7 +358,7 @@ fn bfs_stream(st: &mut St, s: &Stream, n: usize) {
         let obs = log::with(|l| Obs::from_log(l, K::TWrite));
         let ls = o.last_state;
         Some((
-            Key { pos, kept: ls.kept, proc_offset: ls.proc_offset, read_offset: ls.read_offset, discarding: ls.discarding, obs: obs_digest(&obs) },
+            Key { pos, kept: ls.kept, proc_offset: ls.proc_offset, read_offset: ls.read_offset, discarding: ls.discarding, scan: ls.scan, obs: obs_digest(&obs) },
             obs,
         ))
     };
